@@ -67,6 +67,7 @@ Record raster_case := mk_raster_case {
   ra_extent : f4; ra_w : Z; ra_h : Z;
   ra_sn : bool;                                   (* written south-to-north *)
   ra_transform : f6;                              (* transform of the opened dataset *)
+  ra_bounds : f4;                                 (* dataset.bounds as computed by rasterio *)
   ra_obs_rio : f4; ra_obs_gdal : f4;              (* area_extent returned through the rasterio / gdal branch *)
   ra_obs_w : Z; ra_obs_h : Z;
   ra_obs_x : list float; ra_obs_y : list float
@@ -74,14 +75,17 @@ Record raster_case := mk_raster_case {
 Definition chk_raster (c : raster_case) : bool :=
   let a := mka (ra_extent c) (ra_w c) (ra_h c) in
   let tr := if ra_sn c then area_affine_sn F64 a else area_affine F64 a in
-  let b := raster_load F64 tr (ra_w c) (ra_h c) in
-  f6_same tr (ra_transform c) && negb (rotated F64 tr) &&
-  f4_same (area_extent b) (ra_obs_rio c) && f4_same (area_extent b) (ra_obs_gdal c) &&
-  (width b =? ra_obs_w c) && (height b =? ra_obs_h c) &&
+  let b := raster_load F64 tr (ra_w c) (ra_h c) in                                  (* gdal branch *)
+  let b' := rio_load (mk_rio (ra_h c) (ra_w c) (ra_bounds c)) in                    (* rasterio branch on rasterio's own bounds *)
+  f6_same tr (ra_transform c) && negb (rotated F64 tr) && negb (rotated_rio F64 tr) &&
+  f4_same (area_extent b) (ra_bounds c) &&                                          (* H_bounds of C20_rasterio_roundtrip *)
+  f4_same (area_extent b') (ra_obs_rio c) && f4_same (area_extent b) (ra_obs_gdal c) &&
+  (width b =? ra_obs_w c) && (height b =? ra_obs_h c) && (width b' =? ra_obs_w c) && (height b' =? ra_obs_h c) &&
   same_list (proj_x F64 b) 0 (ra_obs_x c) && same_list (proj_y F64 b) 0 (ra_obs_y c).
 
 (* a rotated transform must be refused: (transform, implementation raised ValueError) *)
-Definition chk_rotated (c : f6 * bool) : bool := Bool.eqb (rotated F64 (fst c)) (snd c).
+Definition chk_rotated (c : f6 * bool * bool) : bool :=
+  let '(tr, gdal_raised, rio_raised) := c in Bool.eqb (rotated F64 tr) gdal_raised && Bool.eqb (rotated_rio F64 tr) rio_raised.
 
 (* ---------------------------------------------------------------- GeoBox / cartopy *)
 Record geobox_case := mk_geobox_case {
@@ -93,7 +97,7 @@ Definition chk_geobox (c : geobox_case) : bool :=
   let a := mka (gb_extent c) (gb_w c) (gb_h c) in
   let tr := geobox_affine F64 a in
   f6_same tr (gb_affine c) &&
-  (fst (geobox_shape a) =? fst (gb_shape c)) && (snd (geobox_shape a) =? snd (gb_shape c)) &&
+  (fst (geobox_shape F64 a) =? fst (gb_shape c)) && (snd (geobox_shape F64 a) =? snd (gb_shape c)) &&
   f2_same (affine_apply F64 tr (Z2F 0) (Z2F 0)) (gb_c00 c) &&
   f2_same (affine_apply F64 tr (Z2F (gb_w c)) (Z2F (gb_h c))) (gb_cwh c).
 
